@@ -264,7 +264,7 @@ class Sandbox(object):
             os.environ.update(env)
             old = (sys.stdout, sys.stderr)
             sys.stdin = io.open(0, 'r', encoding='utf-8', errors='surrogateescape', closefd=False)
-            sys.stdout = io.open(1, 'w', encoding='utf-8', errors='surrogateescape', closefd=False)
+            sys.stdout = io.open(1, 'w', encoding='utf-8', errors='strict', closefd=False)          # as CPython does under a UTF-8 locale
             sys.stderr = io.open(2, 'w', encoding='utf-8', errors='backslashreplace',
                                  closefd=False, buffering=1)
             import logging
